@@ -7,6 +7,7 @@ import HdModel.Model.TimeoutDriver
 import HdModel.Model.WireDriver
 import HdModel.Model.StreamsDriver
 import HdModel.Model.PoolDriver
+import HdModel.Model.ServerDriver
 /-! Line-protocol driver.  One case per line:
       `<stream> <input tokens…> | <implementation observation tokens…>`
     Output, one line per case:
@@ -28,6 +29,7 @@ def handle (line : String) : String :=
     | "wire" :: rest => Wire.driverLine rest obs
     | "st" :: rest => Streams.driverLine rest obs
     | "pool" :: rest => Pool.driverLine rest obs
+    | "srv" :: rest => Server.driverLine rest obs
     | _ => (false, false, "unknown-stream", "")
   s!"{boolTok r.1} {boolTok r.2.1} {r.2.2.1} | {r.2.2.2}"
 
